@@ -57,6 +57,23 @@ Theorem C09_fatal_closes : forall cf orc json st bs pre st0 c params rest e post
 Proof. exact fatal_closes. Qed.
 Print Assumptions C09_fatal_closes.
 
+(* a consumer may answer the messages it holds while subscribed AND after CLS: FIN / TOUCH /
+   REQ with a 16-byte id (and a numeric delay) that the core accepts succeed in both
+   states, without a frame and without leaving the state *)
+Theorem C09_held_answers_succeed : forall cf orc json st id rest,
+  c_tls_required cf = false ->
+  st_kind st = SSubscribed \/ st_kind st = SClosing ->
+  len id = nsqd_MsgIDLength ->
+  (orc (st_hist st) (KFin id) = true ->
+     exec cf orc json st [lit_fin; id] rest = XRes CFin (HOk [Fin id] (push_hist st (KFin id) true) rest))
+  /\ (orc (st_hist st) (KTouch id) = true ->
+     exec cf orc json st [lit_touch; id] rest
+       = XRes CTouch (HOk [Touch id (st_msgto st)] (push_hist st (KTouch id) true) rest))
+  /\ (forall t d, req_param (c_max_req cf) t = ReqDelay d -> orc (st_hist st) (KReq id d) = true ->
+     exec cf orc json st [lit_req; id; t] rest = XRes CReq (HOk [Req id d] (push_hist st (KReq id d) true) rest)).
+Proof. exact held_answers_succeed. Qed.
+Print Assumptions C09_held_answers_succeed.
+
 (* the model's table is the source's table: dispatch order, handlers, position of the TLS
    gate, the unknown-command answer, each handler's (code, fatal?) set, the magic *)
 Theorem C09_dispatch_is_source : model_dispatch = exec_dispatch.
@@ -187,6 +204,22 @@ Example C09_witness_soft_error :
   exec_conn ex_cfg (fun _ k => match k with KFin _ => false | _ => true end) nojson
     (s_sub ++ [70;73;78;32; 48;49;50;51;52;53;54;55;56;57;97;98;99;100;101;102; 10]%N ++ [67;76;83;10]%N) =
   [Sub [116]%N [99]%N; Resp ROk; Err E_FIN_FAILED; Cls; Resp RCloseWait; Close].
+Proof. vm_compute. reflexivity. Qed.
+
+(* after CLS the consumer still answers what it holds: TOUCH, REQ and FIN of in-flight
+   messages are silent successes in the closing state (the witness of seeded change C09-m4);
+   a second CLS is out of state *)
+Definition s_id1 : bytes := [48;49;50;51;52;53;54;55;56;57;97;98;99;100;101;102]%N.
+Definition s_id2 : bytes := [102;101;100;99;98;97;57;56;55;54;53;52;51;50;49;48]%N.
+Example C09_witness_closing_answers :
+  exec_conn ex_cfg yes nojson
+    (s_sub ++ [67;76;83;10]%N
+     ++ [84;79;85;67;72;32]%N ++ s_id1 ++ [10]%N
+     ++ [82;69;81;32]%N ++ s_id1 ++ [32;48;10]%N
+     ++ [70;73;78;32]%N ++ s_id2 ++ [10]%N
+     ++ [67;76;83;10]%N) =
+  [Sub [116]%N [99]%N; Resp ROk; Cls; Resp RCloseWait;
+   Touch s_id1 (c_def_msgto ex_cfg); Req s_id1 0; Fin s_id2; Err E_INVALID; Close].
 Proof. vm_compute. reflexivity. Qed.
 
 (* a line longer than the read buffer closes the connection without an error frame *)
